@@ -2,10 +2,11 @@
    Proved: a validator wf_emd (the Coq twin of the harness's h5py-only validator) accepts every file a fresh save of a
    whole tree produces and every file an append (C09's union) leaves; plus the individual layout facts (valid tags on
    every node group, tagged bundles of tagged typed items, the header passing the package detector, the bundle
-   created by the append path tagged, no scratch group after a replace: C09/C18).  PARTIAL: emdpath appends,
-   append-over and list saves are validated on real files by the harness after every successful save of
+   created by the append path tagged, no scratch group after a replace: C09/C18).  PARTIAL: emdpath appends
+   and lists holding rooted nodes are validated on real files by the harness after every successful save of
    every scenario, not by a theorem. *)
-From Emd Require Import Base.Prelude Model.H5 Model.Emd Generated.Tables Proofs.PTree Proofs.P05 Proofs.P20 Proofs.PRead Proofs.PUnion Proofs.PWf.
+From Emd Require Import Base.Prelude Model.H5 Model.Emd Generated.Tables Proofs.PTree Proofs.P05 Proofs.P20 Proofs.PRead Proofs.PUnion Proofs.PUnionAO Proofs.PWf Proofs.PMulti Proofs.PAfter.
+From Emd Require Import Model.EmdList.
 From Emd Require Generated.Version.
 
 Theorem C05_every_node_group_is_tagged :
@@ -94,6 +95,32 @@ Theorem C05_the_file_after_an_append_passes_the_validator :
     exists f, write_node c (H5 (whole_file c0 m)) root [] (WA md tr None) = (Ok tt, H5 f) /\ wf_emd c0 f = true.
 Proof. exact wf_after_append. Qed.
 Print Assumptions C05_the_file_after_an_append_passes_the_validator.
+
+(* ... and the file an append-over leaves (C09's union + replace) *)
+Theorem C05_the_file_after_an_appendover_passes_the_validator :
+  forall c c0 m root md tr,
+    In md appendovermode -> tr <> Some false ->
+    rcls m = CRoot -> rname root = rname m -> rmds root = [] -> compat_ao root (shallow_links m) (rkids m) ->
+    plain_tree m -> plain_tree root ->
+    exists f, write_node c (H5 (whole_file c0 m)) root [] (WA md tr None) = (Ok tt, H5 f) /\ wf_emd c0 f = true.
+Proof. exact wf_after_appendover. Qed.
+Print Assumptions C05_the_file_after_an_appendover_passes_the_validator.
+
+(* ... files holding several trees (successive saves under new root names: C10) and list saves of roots, unrooted
+   nodes, arrays and dicts into a fresh file *)
+Theorem C05_a_file_of_several_trees_passes_the_validator :
+  forall c ts, ts <> [] -> Forall (fun t => rcls t = CRoot /\ plain_tree t) ts -> wf_emd c (forest_file c ts) = true.
+Proof. exact wf_forest_file. Qed.
+Print Assumptions C05_a_file_of_several_trees_passes_the_validator.
+
+Theorem C05_a_list_save_passes_the_validator :
+  forall c tops items md tr,
+    no_rooted_items items -> nodup_nat (list_unrooted_idx tops items) = true -> In md allmodes ->
+    let trees := list_saved tops items ++ list_given tops items in
+    trees <> [] -> Forall (fun t => rcls t = CRoot /\ plain_tree t) trees -> Forall ok_tree trees -> NoDup (map rname trees) ->
+    exists f, write_list c Absent tops items (WA md tr None) = (Ok tt, H5 f) /\ wf_emd c f = true.
+Proof. exact wf_list_save. Qed.
+Print Assumptions C05_a_list_save_passes_the_validator.
 
 (* the validator is not vacuous: it rejects an untagged child group, a missing calibration dataset and a scratch group *)
 Example C05_validator_rejects :
